@@ -269,6 +269,59 @@ pub fn k_efi_mmap(ctx: &mut Ctx, g: &Guarded, t: &EFIMemoryMapTag) {
             Err(()) => "PANIC".to_string(),
         },
     );
+    for (i, ops) in hists(n).iter().enumerate() {
+        let mut it = t.memory_areas();
+        let txt = run_hist(ops, |op| {
+            let r = guard(|| match op {
+                Hop::Next => it.next(),
+                Hop::Nth(k) => it.nth(k),
+            })?;
+            Ok(match r {
+                Some(d) => format!("some {} len={}", view(g, d), gv(|| it.len())),
+                None => "none".to_string(),
+            })
+        });
+        ctx.ln("efi_hist", format!("{} {}", i, txt));
+    }
+}
+
+/// short histories mixing next() and the provided nth(k) on ONE iterator object (model: RunMbiFull.hists)
+#[derive(Clone, Copy)]
+pub enum Hop {
+    Next,
+    Nth(usize),
+}
+
+pub fn hists(n: usize) -> Vec<Vec<Hop>> {
+    use Hop::*;
+    let m1 = n.saturating_sub(1);
+    vec![
+        vec![Next, Nth(0)],
+        vec![Next, Nth(1)],
+        vec![Next, Next, Nth(0)],
+        vec![Nth(1), Nth(0)],
+        vec![Nth(0), Next],
+        vec![Next, Nth(n)],
+        vec![Next, Nth(m1)],
+        vec![Nth(m1), Next, Next],
+        vec![Nth(n), Next],
+        vec![Nth(0), Nth(0), Nth(0)],
+    ]
+}
+
+/// runs one history; `step` performs the operation and renders the result ("some ..", "none"), Err = panic (stop)
+pub fn run_hist(ops: &[Hop], mut step: impl FnMut(Hop) -> Result<String, ()>) -> String {
+    let mut out = Vec::new();
+    for op in ops {
+        match step(*op) {
+            Ok(s) => out.push(s),
+            Err(()) => {
+                out.push("PANIC".to_string());
+                break;
+            }
+        }
+    }
+    out.join(";")
 }
 
 /// the decimal numbers that follow each occurrence of `key` in a Debug text
@@ -357,6 +410,23 @@ pub fn k_elf(ctx: &mut Ctx, g: &Guarded, t: &ElfSectionsTag) {
                 Err(()) => "PANIC".to_string(),
             },
         );
+        for (i, ops) in hists(total).iter().enumerate() {
+            let mut it = t.sections();
+            let txt = run_hist(ops, |op| {
+                let r = guard(|| match op {
+                    Hop::Next => it.next(),
+                    Hop::Nth(k) => it.nth(k),
+                })?;
+                Ok(match r {
+                    Some(_) => {
+                        let idx = (total - it.len() - 1) as isize;
+                        format!("some {} rem={}", table + idx * es, it.len())
+                    }
+                    None => "none".to_string(),
+                })
+            });
+            ctx.ln("elf_hist", format!("{} {}", i, txt));
+        }
     }
 }
 
@@ -867,6 +937,19 @@ pub fn run(ctx: &mut Ctx, dom: &str, a: &[Arg]) {
                                 }
                             } else {
                                 ctx.ln("next", "skip");
+                            }
+                        }
+                        3 => {
+                            let (i, k) = (op[1].u(), op[2].u());
+                            if i < pool.len() && pool[i].is_some() {
+                                let it = pool[i].as_mut().unwrap();
+                                match guard(|| it.nth(k)) {
+                                    Ok(Some(t)) => ctx.ln("nth", format!("VAL some {}", tag_line(&g, t))),
+                                    Ok(None) => ctx.ln("nth", "VAL none"),
+                                    Err(()) => ctx.ln("nth", "PANIC"),
+                                }
+                            } else {
+                                ctx.ln("nth", "skip");
                             }
                         }
                         _ => ctx.ln("op", "bad"),
